@@ -45,8 +45,11 @@ inline void cov_hit(uint64_t pc) {
 }
 }  // namespace mc
 
+// the harness is position independent: hash the pc relative to the load address so that signatures are the same
+// in every shard process (ASLR)
+extern "C" char __executable_start;
 extern "C" __attribute__((no_sanitize("address", "undefined", "thread")))
-void __sanitizer_cov_trace_pc() { mc::cov_hit((uint64_t)__builtin_return_address(0)); }
+void __sanitizer_cov_trace_pc() { mc::cov_hit((uint64_t)__builtin_return_address(0) - (uint64_t)&__executable_start); }
 
 namespace mc {
 
